@@ -508,3 +508,149 @@ func OwnTokCache(p *load.Program) *report.RuleResult {
 	}
 	return r
 }
+
+// OrdEndClear implements ORD-ENDCLEAR: closing a container discards a field
+// name or annotations that were set but never followed by a value, in every
+// writer implementation.
+func OrdEndClear(p *load.Program) *report.RuleResult {
+	r := newResult("ORD-ENDCLEAR", "in each Writer implementation the function that closes a container (end) reaches (*writer).clear on every path to an exit that does not return a definitely non-nil error: a field name or annotation set just before End* does not leak to a later value", 2)
+	n := 0
+	for _, T := range implementers(p, p.Ion, "Writer") {
+		fn := methodByName(p, T.Obj().Name(), "end")
+		if fn == nil {
+			continue
+		}
+		n++
+		name := p.FuncName(fn)
+		ei := errResultIndex(fn)
+		isClear := func(in ssa.Instruction) bool {
+			c, ok := in.(ssa.CallInstruction)
+			if !ok {
+				return false
+			}
+			f := load.Unwrap(c.Common().StaticCallee())
+			return f != nil && f.Name() == "clear" && recvTypeName(f) == "writer"
+		}
+		ff := ssau.ComputeFacts(fn, ssau.StoreKills)
+		// every return reachable from the entry without passing clear()
+		type st struct {
+			b   *ssa.BasicBlock
+			idx int
+		}
+		seen := map[*ssa.BasicBlock]bool{fn.Blocks[0]: true}
+		work := []st{{fn.Blocks[0], 0}}
+		bad := ""
+		for len(work) > 0 && bad == "" {
+			cur := work[len(work)-1]
+			work = work[:len(work)-1]
+			stopped := false
+			for i := cur.idx; i < len(cur.b.Instrs); i++ {
+				in := cur.b.Instrs[i]
+				if isClear(in) {
+					stopped = true
+					break
+				}
+				if ret, ok := in.(*ssa.Return); ok && ei >= 0 {
+					v := ret.Results[ei]
+					if definitelyNonNilError(p, v, 0) || ff.At(ret).Has("nonnil", ssau.Path(v), "") {
+						continue
+					}
+					bad = sprintf("the exit at %s can return without an error although clear() was not called", instrPos(p, ret))
+				}
+			}
+			if stopped {
+				continue
+			}
+			for _, s := range cur.b.Succs {
+				if !seen[s] {
+					seen[s] = true
+					work = append(work, st{s, 0})
+				}
+			}
+		}
+		if bad == "" {
+			r.OK(name, p.Pos(fn.Pos()), "pending field name/annotations at End*", "clear() is reached before every exit that may succeed")
+		} else {
+			r.Bad(name, p.Pos(fn.Pos()), "pending field name/annotations at End*", bad+": FieldName(a); EndStruct(); BeginStruct(); WriteInt(1) would emit {a:1} instead of failing")
+		}
+	}
+	if n < 2 {
+		missing(r, "end functions of the Writer implementations", sprintf("found %d, expected 2", n))
+	}
+	return r
+}
+
+// OwnWriterCache implements OWN-WRCACHE: the binary writer keeps no
+// text-to-ID memory of its own besides the symbol table builder, or resets it
+// whenever the builder is replaced.
+func OwnWriterCache(p *load.Program) *report.RuleResult {
+	r := newResult("OWN-WRCACHE", "every map- or slice-typed field of the binary writer that can carry symbol IDs across values (a field whose type mentions uint64 or SymbolToken, other than the buffers) is reset on every path after each replacement of the symbol table builder (lstb), so no ID assigned under one local symbol table is emitted under the next", 1)
+	bw := p.Type(p.Ion, "binaryWriter")
+	if bw == nil {
+		missing(r, "binaryWriter", "type not found")
+		return r
+	}
+	st := bw.Underlying().(*types.Struct)
+	storesField := func(in ssa.Instruction, field string) bool {
+		s, ok := in.(*ssa.Store)
+		if !ok {
+			return false
+		}
+		tn, f, ok := ssau.FieldOf(s.Addr)
+		return ok && f == field && tn == "binaryWriter"
+	}
+	type site struct {
+		fn *ssa.Function
+		in ssa.Instruction
+	}
+	var lstbStores []site
+	for _, fn := range p.Funcs {
+		if p.InTest(fn) || recvTypeName(fn) != "binaryWriter" {
+			continue
+		}
+		for _, b := range fn.Blocks {
+			for _, in := range b.Instrs {
+				if storesField(in, "lstb") {
+					lstbStores = append(lstbStores, site{fn, in})
+				}
+			}
+		}
+	}
+	if len(lstbStores) == 0 {
+		missing(r, "replacement of binaryWriter.lstb", "no store found")
+		return r
+	}
+	r.OK("binaryWriter", p.Pos(bw.Obj().Pos()), "symbol table builder replaced", sprintf("%d site(s) found", len(lstbStores)))
+	for i := 0; i < st.NumFields(); i++ {
+		f := st.Field(i)
+		if f.Embedded() {
+			continue
+		}
+		switch u := f.Type().Underlying().(type) {
+		case *types.Map:
+			if basicKind(u.Elem()) != types.Uint64 && basicKind(u.Key()) != types.Uint64 && !mentionsNamed(u.Elem(), "SymbolToken", 0) {
+				continue
+			}
+		case *types.Slice:
+			if basicKind(u.Elem()) != types.Uint64 && !mentionsNamed(u.Elem(), "SymbolToken", 0) {
+				continue
+			}
+		default:
+			continue
+		}
+		what := "field binaryWriter." + f.Name() + " (" + types.TypeString(f.Type(), shortQual) + ")"
+		bad := ""
+		for _, s := range lstbStores {
+			if esc := ssau.EscapesWithout(s.in, func(in ssa.Instruction) bool { return storesField(in, f.Name()) }, nil); esc != nil {
+				bad = sprintf("%s replaces the builder at %s and can return (%s) without resetting it", p.FuncName(s.fn), instrPos(p, s.in), instrPos(p, esc))
+				break
+			}
+		}
+		if bad == "" {
+			r.OK("binaryWriter", p.Pos(f.Pos()), what, "reset after every replacement of the builder")
+		} else {
+			r.Bad("binaryWriter", p.Pos(f.Pos()), what, "IDs remembered in this field survive the start of a new local symbol table: "+bad)
+		}
+	}
+	return r
+}
